@@ -93,7 +93,7 @@ def analyse(mod, run, label):
         # ---- L7: the encoder is injective on each class (necessary for decode(encode(x)) == x) ----
         for lo, hi, ret, st in cls:
             ok, why = injective(lo, hi, st)
-            if ok is None: raise AnalysisBroken("%s class [%d,%d]: injectivity not decidable: %s" % (d["enc"], lo, hi, why))
+            if ok is None: run.defer_broken("%s class [%d,%d]: injectivity not decidable: %s" % (d["enc"], lo, hi, why)); continue
             run.check(ok, "L7-encoder-injective", {"encoder": d["enc"], "x_in": [lo, hi]},
                       Finding("L7-two-values-one-encoding", d["enc"], fam, "class[%d,%d]" % (lo, hi), "%s on x in [%d, %d]: %s - no decoder can return both values" % (d["enc"], lo, hi, why)))
         # ---- L1: predictors ----
